@@ -73,7 +73,9 @@ BadGroups ==
     G(<<"-elevrange", "0,100,200">>, [k |-> "bad", v |-> "range without two values"]), G(<<"-obsrange", "1">>, [k |-> "bad", v |-> "range without two values"]),
     G(<<"-T", "0">>, [k |-> "bad", v |-> "non-positive -T"]), G(<<"-T", "-6">>, [k |-> "bad", v |-> "non-positive -T"]),
     G(<<"-q", "0.5,1.5">>, [k |-> "bad", v |-> "quantile outside [0,1]"]), G(<<"-type", "foo">>, [k |-> "bad", v |-> "unknown type"]),
-    G(<<"MISSINGFILE">>, [k |-> "bad", v |-> "unreadable input file"]), G(<<"-agg", "quantile">>, [k |-> "bad", v |-> "unknown aggregator"]),
+    G(<<"MISSINGFILE">>, [k |-> "bad", v |-> "unreadable input file"]),
+    \* a NetCDF file that is not in the documented layout (its lead-time axis sits on a dimension of another name)
+    G(<<"BADNCFILE">>, [k |-> "bad", v |-> "invalid input file"]), G(<<"-agg", "quantile">>, [k |-> "bad", v |-> "unknown aggregator"]),
     G(<<"-T", "abc">>, [k |-> "bad", v |-> "non-numeric -T"]) }
 \* a flag that needs a value, given last
 Dangling == G(<<"-m">>, [k |-> "bad", v |-> "flag without its value"])
@@ -168,7 +170,7 @@ LoopResult(v) == Loop(v.argv, [n \in {"CFG", "CFG2"} |-> IF n = "CFG" THEN v.con
 InvOrderIndependent ==
   c.kind = "cli" =>
     LET gs == {g.toks : g \in c.groups} \cup {BaseOf(c.groups)[k] : k \in DOMAIN BaseOf(c.groups)} \cup (IF c.dangling THEN {Dangling.toks} ELSE {})
-        want == Meaning({g \in gs : IsFlag(g[1])}, SelectSeq(<<"FILE1", "MISSINGFILE", "FILE2">>, LAMBDA f : f \in {"FILE1", "FILE2"} \/ <<f>> \in gs))
+        want == Meaning({g \in gs : IsFlag(g[1])}, SelectSeq(<<"FILE1", "MISSINGFILE", "BADNCFILE", "FILE2">>, LAMBDA f : f \in {"FILE1", "FILE2"} \/ <<f>> \in gs))
     IN  \A v \in VariantsOf(c.groups, c.dangling) :
            LET got == LoopResult(v) IN
            /\ got.status = want.status
